@@ -103,7 +103,10 @@ def oracle(spec, ctx):
         W = 2.0 * (D + w0)
         delta = max(tol, W / 2.0 ** (max_iter + 1))
         mag = max(abs(float(r[i])), abs(float(lower)), abs(float(upper)))
-        e[i] = (shift + delta) * (1 + 1e-6) + 4 * ulp(mag + shift + delta)
+        # "down to floating-point resolution at the ROOT's magnitude": once the bracket is narrower than 2 delta both of
+        # its ends have magnitude <= |r| + shift + 2 delta, whatever the initial interval was (an allowance of ulp(max(|lower|,
+        # |upper|)) hid the seeded change C10_D: tolerance floored at eps in float32, roots of magnitude 1e-3)
+        e[i] = (shift + delta) * (1 + 1e-6) + 4 * ulp(abs(float(r[i])) + shift + 2 * delta)
         k_adapt = math.ceil(math.log2(1.0 + D / w0)) + 2
         sub_res = 2 * tol < 8 * ulp(mag + shift + D)  # width criterion unreachable: ends by max_iter
         n_bis = max_iter if sub_res else min(max_iter, max(0, math.ceil(math.log2(max(W / (2 * tol), 1.0))) + 2))
